@@ -30,6 +30,9 @@ inductive Tree where
   | node (batch : List Nat) (device : String) (kids : List (String × Tree))
   /-- a lazy stack: the members, keyed by their index written in decimal (`"0"`, `"1"`, …) -/
   | lazy (stackDim : Nat) (members : List (String × Tree))
+  /-- a tensorclass instance (tensordict/tensorclass.py:_memmap_): its non-tensor fields (`fields`: what `meta.json` carries besides
+      `_type`) and its tensordict, saved under the sub-directory `_tensordict` (`inner = [("_tensordict", node)]`) -/
+  | tclass (cls : String) (fields : String) (inner : List (String × Tree))
   deriving Repr
 
 def numel (shape : List Nat) : Nat := shape.foldl (· * ·) 1
@@ -62,6 +65,7 @@ def metaEntry : Tree → MetaEntry
   | .nontensor .. => .coll "NonTensorData"
   | .node .. => .coll "TensorDict"
   | .lazy .. => .coll "LazyStackedTensorDict"
+  | .tclass cls .. => .coll cls
 
 def nodeMeta (batch : List Nat) (device : String) (kids : List (String × Tree)) : Meta :=
   ⟨"TensorDict", batch, device, kids.map fun p => (p.1, metaEntry p.2), none⟩
@@ -73,6 +77,9 @@ def ntMeta (data : String) (batch : List Nat) : Meta := ⟨"NonTensorData", batc
     stack saved there before` — `len`; both numbers are carried in the `batch` field of `Meta`. -/
 def lazyMeta (stackDim n : Nat) : Meta := ⟨"LazyStackedTensorDict", [stackDim, n], "None", [], none⟩
 
+/-- meta.json of a tensorclass (`save_metadata` of tensorclass.py:_memmap_): `_type` = the class, and the non-tensor fields -/
+def tcMeta (cls fields : String) : Meta := ⟨cls, [], "None", [], some fields⟩
+
 mutual
 /-- the writer tasks of the tensordict stored in directory `dir`, in submission order -/
 def tasksTree (dir : Path) : Tree → List (Path × File)
@@ -83,6 +90,9 @@ def tasksTree (dir : Path) : Tree → List (Path × File)
   | .lazy sd members =>
     -- `save_metadata` is submitted first, then every member saves itself under `dir/<index>`
     (dir ++ ["meta.json"], .json (lazyMeta sd members.length)) :: tasksKids dir members
+  | .tclass cls fields inner =>
+    -- `save_metadata`, then `self._tensordict._memmap_(prefix / "_tensordict")`
+    (dir ++ ["meta.json"], .json (tcMeta cls fields)) :: tasksKids dir inner
 /-- `for key, value in self.items()`: a leaf → `_populate_memmap` into `dir/<key>.memmap`
     (`torch.from_file(size=0)` creates **no** file for a tensor without elements); a collection →
     its own `_memmap_` under `dir/<key>` -/
@@ -93,6 +103,7 @@ def tasksKids (dir : Path) : List (String × Tree) → List (Path × File)
   | (k, .nontensor d b) :: rest => tasksTree (dir ++ [k]) (.nontensor d b) ++ tasksKids dir rest
   | (k, .node b d ks) :: rest => tasksTree (dir ++ [k]) (.node b d ks) ++ tasksKids dir rest
   | (k, .lazy sd ms) :: rest => tasksTree (dir ++ [k]) (.lazy sd ms) ++ tasksKids dir rest
+  | (k, .tclass c f i) :: rest => tasksTree (dir ++ [k]) (.tclass c f i) ++ tasksKids dir rest
 end
 
 /-- the executor: the submitted tasks complete in the order given -/
@@ -122,7 +133,12 @@ def load : Nat → FS → Path → Option Tree
         match m.batch with
         | [sd, n] => (loadMembers fuel fs dir 0 n).map fun ms => Tree.lazy sd ms
         | _ => none
-      else (loadEntries fuel fs dir m.entries).map fun kids => Tree.node m.batch m.device kids
+      else if m.kind = "TensorDict" then (loadEntries fuel fs dir m.entries).map fun kids => Tree.node m.batch m.device kids
+      else
+        -- any other `_type` is a tensorclass (tensorclass.py:_load_memmap): the fields of meta.json, the tensordict under `_tensordict`
+        match load fuel fs (dir ++ ["_tensordict"]) with
+        | some t => some (Tree.tclass m.kind (m.payload.getD "") [("_tensordict", t)])
+        | none => none       -- "The _tensordict directory seems to be missing."
     | _ => none
 termination_by fuel _ _ => (fuel, 0, 0)
 def loadEntries : Nat → FS → Path → List (String × MetaEntry) → Option (List (String × Tree))
@@ -169,7 +185,7 @@ def loadInto : Nat → FS → Path → Tree → Option Tree
   | fuel + 1, fs, dir, .node ob od oldKids =>
     match fs (dir ++ ["meta.json"]) with
     | some (.json m) =>
-      if m.kind = "NonTensorData" ∨ m.kind = "LazyStackedTensorDict" then none
+      if m.kind ≠ "TensorDict" then none
       else (loadIntoEntries fuel fs dir m.entries oldKids).map fun kids =>
         Tree.node ob od (kids ++ oldKids.filter fun p => !(kids.any fun q => q.1 == p.1))
     | _ => none
@@ -222,7 +238,7 @@ def loadIntoSkip : Nat → FS → Path → Tree → Option Tree
   | fuel + 1, fs, dir, .node ob od oldKids =>
     match fs (dir ++ ["meta.json"]) with
     | some (.json m) =>
-      if m.kind = "NonTensorData" ∨ m.kind = "LazyStackedTensorDict" then none
+      if m.kind ≠ "TensorDict" then none
       else (loadIntoEntriesSkip fuel fs dir m.entries oldKids).map fun kids =>
         Tree.node ob od (kids ++ oldKids.filter fun p => !(kids.any fun q => q.1 == p.1))
     | _ => none
@@ -235,6 +251,7 @@ def depth : Tree → Nat
   | .nontensor .. => 1
   | .node _ _ kids => depthKids kids + 1
   | .lazy _ ms => depthKids ms + 1
+  | .tclass _ _ inner => depthKids inner + 1
 def depthKids : List (String × Tree) → Nat
   | [] => 0
   | (_, t) :: rest => max (depth t) (depthKids rest)
@@ -247,6 +264,7 @@ def likeTree : Tree → Tree
   | .nontensor d b => .nontensor d b
   | .node b d kids => .node b d (likeKids kids)
   | .lazy sd ms => .lazy sd (likeKids ms)
+  | .tclass c f i => .tclass c f (likeKids i)
 def likeKids : List (String × Tree) → List (String × Tree)
   | [] => []
   | (k, t) :: rest => (k, likeTree t) :: likeKids rest
@@ -284,6 +302,8 @@ def PathSafe : Tree → Prop
     ((kids.map entryName) ++ ["meta.json"]).Nodup ∧ (∀ p ∈ kids, ¬ p.1.contains '/') ∧ PathSafeKids kids
   | .lazy _ ms =>
     ((ms.map entryName) ++ ["meta.json"]).Nodup ∧ (∀ p ∈ ms, ¬ p.1.contains '/') ∧ PathSafeKids ms
+  | .tclass _ _ inner =>
+    ((inner.map entryName) ++ ["meta.json"]).Nodup ∧ (∀ p ∈ inner, ¬ p.1.contains '/') ∧ PathSafeKids inner
 def PathSafeKids : List (String × Tree) → Prop
   | [] => True
   | (_, t) :: rest => PathSafe t ∧ PathSafeKids rest
